@@ -24,14 +24,24 @@ pub fn unobs(v: &[Ob]) -> Vec<u32> {
     v.iter().map(|x| x.0).collect()
 }
 
-// operator overloads of the Var interface: result type = type of the left operand
+// operator overloads of the Var interface.  The signature is deliberately heterogeneous: the
+// result type of an operator is a function of its operand types that differs from both, so that
+// an implementation which guesses the result type from an operand is told apart from one that
+// asks the signature.
 use open_hypergraphs::lax::var::*;
+
+pub fn binop_type(code: u32, lhs: u32, rhs: u32) -> Ob {
+    Ob((lhs + rhs + code) % 2)
+}
+pub fn neg_type(t: u32) -> Ob {
+    Ob((t + 1) % 2)
+}
 
 macro_rules! binop {
     ($tr:ident, $f:ident, $code:expr) => {
         impl $tr<Ob, Op> for Op {
-            fn $f(lhs: Ob, _rhs: Ob) -> (Ob, Op) {
-                (lhs, Op($code))
+            fn $f(lhs: Ob, rhs: Ob) -> (Ob, Op) {
+                (binop_type($code, lhs.0, rhs.0), Op($code))
             }
         }
     };
@@ -47,7 +57,7 @@ binop!(HasShr, shr, 14);
 binop!(HasDiv, div, 15);
 impl HasNeg<Ob, Op> for Op {
     fn neg(t: Ob) -> (Ob, Op) {
-        (t, Op(3))
+        (neg_type(t.0), Op(3))
     }
 }
 impl HasNot<Ob, Op> for Op {
